@@ -1,8 +1,9 @@
 /- C18 line-protocol driver: `lake env lean --run PorepyVerif/C18/Driver.lean`
 
 Evaluates the model functions of `Model.lean` on rational data.  Intermediate matrices are
-tabulated (`tab`) before they are handed on, so that the closures `Fin m → Fin n → Rat` are not
-re-evaluated exponentially often; `tab A` is extensionally `A`. -/
+tabulated (`tabulate`, a value computed once) and read back (`fromTab`) before they are handed
+on, so that the closures `Fin m → Fin n → Rat` are not re-evaluated exponentially often;
+`fromTab (tabulate A)` is extensionally `A`. -/
 import PorepyVerif.Common.Wire
 import PorepyVerif.C18.Model
 open Lean PV PorepyVerif.C18
@@ -11,8 +12,10 @@ def vecOf (d : Nat) (l : List Rat) : Vec d := fun a => l.getD a.val 0
 def matOf (m n : Nat) (l : List (List Rat)) : Mat m n := fun i j => (l.getD i.val []).getD j.val 0
 def vecsOf (m d : Nat) (l : List (List Rat)) : Fin m → Vec d := fun i => vecOf d (l.getD i.val [])
 
-def tab {m n : Nat} (A : Mat m n) : Mat m n :=
-  let t : Array (Array Rat) := Array.ofFn fun i : Fin m => Array.ofFn fun j : Fin n => A i j
+def tabulate {m n : Nat} (A : Mat m n) : Array (Array Rat) :=
+  Array.ofFn fun i : Fin m => Array.ofFn fun j : Fin n => A i j
+
+def fromTab {m n : Nat} (t : Array (Array Rat)) : Mat m n :=
   fun i j => (t.getD i.val #[]).getD j.val 0
 
 def listOfVec {d : Nat} (v : Vec d) : List Rat := (List.finRange d).map v
@@ -43,8 +46,11 @@ def run (j : Json) : R Json := do
     checkShape "K" K d d
     checkShape "coord" x (d + 1) d
     checkLen "sign" s (d + 1)
-    let Kinv := tab (invMatrix d (matOf d d K))
-    let M := rt0Mass d Kinv V (vecsOf (d + 1) d x) (vecOf (d + 1) s)
+    let tKinv := tabulate (invMatrix d (matOf d d K))
+    let Kinv : Mat d d := fromTab tKinv
+    let tx := tabulate (fun i a => vecsOf (d + 1) d x i a)
+    let xs : Fin (d + 1) → Vec d := fromTab tx
+    let M := rt0Mass d Kinv V xs (vecOf (d + 1) s)
     pure (obj [("inv", ofMat Kinv), ("M", ofMat M)])
   | "rt0_proj" =>
     let pt ← fRats j "pt"
@@ -73,15 +79,23 @@ def run (j : Json) : R Json := do
     checkShape "fc" fc m d
     checkShape "normals" nrm m d
     checkLen "sign" s m
-    let Km := matOf d d K
-    let Kinv := tab (invMatrix d Km)
-    let G := tab (mvemG d Km V diam)
-    let Ginv := tab (invMatrix d G)
-    let F := tab (mvemF d m (vecOf d c) (vecsOf m d fc) (vecOf m s) diam)
-    let Pi := tab (mvemPi Ginv F)
-    let D := tab (mvemD d m Km (vecsOf m d nrm) diam)
-    let A := mvemAssemble G Pi D (weight * normInf Kinv)
-    pure (obj [("A", ofMat A), ("Pi", ofMat Pi)])
+    let tK := tabulate (matOf d d K)
+    let Km : Mat d d := fromTab tK
+    let tKinv := tabulate (invMatrix d Km)
+    let Kinv : Mat d d := fromTab tKinv
+    let tG := tabulate (mvemG d Km V diam)
+    let G : Mat d d := fromTab tG
+    let tGinv := tabulate (invMatrix d G)
+    let Ginv : Mat d d := fromTab tGinv
+    let tF := tabulate (mvemF d m (vecOf d c) (vecsOf m d fc) (vecOf m s) diam)
+    let F : Mat d m := fromTab tF
+    let tPi := tabulate (mvemPi Ginv F)
+    let Pi : Mat d m := fromTab tPi
+    let tD := tabulate (mvemD d m Km (vecsOf m d nrm) diam)
+    let D : Mat m d := fromTab tD
+    let w := weight * normInf Kinv
+    let tA := tabulate (mvemAssemble G Pi D w)
+    pure (obj [("A", ofMat (fromTab tA : Mat m m)), ("Pi", ofMat Pi)])
   | _ => throw s!"unknown op {op}"
 
 def main : IO Unit := runPure run
